@@ -111,6 +111,13 @@ class NegoEval:
         roles = {uid: proposal} if proposal is not None else {}
         sopmod = Obj("module", {"CTImageStorage": uid})
         it = self.interp({"_STORAGE_CLASSES": {"CTImageStorage": uid}, "SOP_CLASS_MODULE": sopmod, "hasattr": lambda o, n: isinstance(o, Obj) and n in o.attrs})
+        # module-level names of presentation.py derived from what the stand-ins provide (e.g. a view of the storage table)
+        for a_ in self.mod.tree.body:
+            if isinstance(a_, ast.Assign) and len(a_.targets) == 1 and isinstance(a_.targets[0], ast.Name) and a_.targets[0].id not in it.globals and any(isinstance(x, ast.Name) and x.id in ("_STORAGE_CLASSES", "SOP_CLASS_MODULE") for x in ast.walk(a_.value)):
+                try:
+                    it.globals[a_.targets[0].id] = it.ev(a_.value, {})
+                except (Unsupported, Raised):
+                    pass
         acc = self.repo.func("presentation", "negotiate_as_acceptor")
         it.globals["negotiate_as_acceptor"] = lambda a, b, c=None: it.call_function(acc, dict(zip([p.arg for p in acc.args.args], [a, b, c])))
         params = [a.arg for a in fn.args.args]
@@ -145,6 +152,25 @@ class NegoEval:
             return dict(count=len(res))
         c = res[0]
         return dict(result=c.get("result"), as_scu=c.get("as_scu"), as_scp=c.get("as_scp"), ts=list(c.get("transfer_syntax")), ab=c.get("abstract_syntax"))
+
+    def acceptor_many(self, n: int = 128, fname: str = "negotiate_as_acceptor"):
+        """the largest request PS3.8 allows: n contexts (ids 1, 3, .., 2n-1) that alternate between two identical
+        proposals of one supported abstract syntax and one unsupported one. -> [(context id, result, object identity)]"""
+        fn = self.repo.func("presentation", fname)
+        rqs = []
+        for k in range(n):
+            if k % 3 == 2:
+                rqs.append(self.new_cx(context_id=2 * k + 1, abstract_syntax="ZZ", transfer_syntax=["T1"]))
+            else:
+                rqs.append(self.new_cx(context_id=2 * k + 1, abstract_syntax="AB", transfer_syntax=["T1", "T2"]))
+        ac = self.new_cx(context_id=None, abstract_syntax="AB", transfer_syntax=["T2", "T1"], scu_role=True, scp_role=True)
+        it = self.interp()
+        params = [a.arg for a in fn.args.args]
+        try:
+            cxs, _rr = it.call_function(fn, dict(zip(params, [rqs, [ac], {"AB": (True, True)}])))
+        except Raised as r:
+            return [("raised", r.kind, 0)]
+        return [(c.get("context_id"), c.get("result"), id(c)) for c in cxs]
 
     def acceptor_pair(self, proposal, setting, fname: str = "negotiate_as_acceptor"):
         """the same abstract syntax proposed twice: context 1 with a transfer syntax the acceptor supports,
